@@ -23,9 +23,20 @@ CONFIG = {
             "event, lacks a state key, has another membership, room or sender, is unsigned, signed with the wrong key, carries a forged inviter signature; "
             "a fixed prologue runs every remote-answer class and every breach alone on the accepting path; HandleSendJoin for org.matrix.msc4014: "
             "mxid_mapping absent / null / unsigned / signed by another server / malformed, verifier good / bad / failing, store callback failing, "
-            "self-signature good / wrong key / missing / corrupt; compared: error class "
+            "self-signature good / wrong key / missing / corrupt; "
+            "EVENT TYPE (round 4): send_join events and invites whose type is not m.room.member (x.custom, m.room.name, m.room.create, m.room.Member, "
+            "the empty type) but which keep state_key == sender / invitee and content.membership == join / invite — about one generated op in twelve plus "
+            "a fixed prologue of every room version x every such type alone on the accepting path (75 + 5 pseudo-ID send_join ops, 75 invites); "
+            "HandleInviteV3 proto events that are not invites (seven other types, nine other memberships incl. absent / null / non-string / non-object content); "
+            "PLANTED LOCAL SIGNATURE: received events that already carry an entry under (signing name, local key ID) — 64 zero bytes, a genuine signature "
+            "made with another key, a short value — or under the local name with another key ID, every room version x every class alone on the accepting "
+            "path plus 6% of the random ops; the mock verifier answers 'good' only to the question the property is about (requesting / sender's server, "
+            "the redacted event, the event's timestamp, one request) and the mock membership querier only for (request room, target user); "
+            "compared: error class "
             "(Matrix code / internal / other) or response, signer, real ed25519 verification of the returned event's local signature, event unmodified. "
-            "spec stream = the guard predicate of VModel.HandshakeSpec (a refusal is demanded where it is false). non-trivial = every op (each is a distinct "
+            "spec stream = the guard predicate of VModel.HandshakeSpec (a refusal is demanded where it is false; where send_join is accepted the "
+            "specification demands sig=1 — the entry under (local server, key ID) VERIFIES with the real local key — and unmod=1, built from the "
+            "property text, not from the model's answer). non-trivial = every op (each is a distinct "
             "parameter combination)",
     "nontrivial": lambda op, impl: True,
     "trusted": COMMON_TRUSTED + [
